@@ -85,6 +85,35 @@ static int ri_codes(rinf_t *r, const rh_t *ll, const rh_t *dd, int have_dist)
 		for (int i = 0; i < len; i++) { r->out[r->outlen] = dist <= r->outlen ? r->out[r->outlen - dist] : r->dict[r->dictlen - (dist - r->outlen)]; r->outlen++; }
 	}
 }
+/* parse HLIT/HDIST/HCLEN and the code length sequence of a dynamic block (after BFINAL/BTYPE); l must hold 320 bytes.
+ * returns 0 or -1 with r->err set */
+static int ri_dyn_header(rinf_t *r, uint8_t *l, int *pnlen, int *pndist)
+{
+	int nlen = (int) ri_bits(r, 5) + 257, ndist = (int) ri_bits(r, 5) + 1, ncode = (int) ri_bits(r, 4) + 4; if (r->err) return -1;
+	if (nlen > 286 || ndist > 30) { r->err = RI_HLIT; return -1; }
+	static const uint8_t ord[19] = {16,17,18,0,8,7,9,6,10,5,11,4,12,3,13,2,14,1,15};
+	memset(l, 0, 320); uint8_t cl[19]; memset(cl, 0, 19);
+	for (int i = 0; i < ncode; i++) cl[ord[i]] = (uint8_t) ri_bits(r, 3);
+	if (r->err) return -1;
+	rh_t ch; int e = rh_build(&ch, cl, 19);
+	if (e < 0) { r->err = RI_CLCODE; return -1; }
+	int idx = 0;
+	while (idx < nlen + ndist) {
+		int s = rh_dec(r, &ch); if (r->err) return -1;
+		if (s < 16) l[idx++] = (uint8_t) s;
+		else {
+			int rep, v = 0;
+			if (s == 16) { if (!idx) { r->err = RI_REPNOPREV; return -1; } v = l[idx - 1]; rep = 3 + (int) ri_bits(r, 2); }
+			else if (s == 17) rep = 3 + (int) ri_bits(r, 3);
+			else rep = 11 + (int) ri_bits(r, 7);
+			if (r->err) return -1;
+			if (idx + rep > nlen + ndist) { r->err = RI_REPOVERRUN; return -1; }
+			while (rep--) l[idx++] = (uint8_t) v;
+		}
+	}
+	if (!l[256]) { r->err = RI_NOEOB; return -1; }
+	*pnlen = nlen; *pndist = ndist; return 0;
+}
 /* returns 0 when the final block was consumed; 1 (prefix mode) when the input ended exactly at a block boundary; <0 on error (r->err) */
 static int rinflate(rinf_t *r)
 {
@@ -117,29 +146,9 @@ static int rinflate(rinf_t *r)
 			if (ri_codes(r, &ll, &dd, 1)) return -1;
 		} else if (t == 2) {
 			r->ndyn++;
-			int nlen = (int) ri_bits(r, 5) + 257, ndist = (int) ri_bits(r, 5) + 1, ncode = (int) ri_bits(r, 4) + 4; if (r->err) return -1;
-			if (nlen > 286 || ndist > 30) { r->err = RI_HLIT; return -1; }
-			static const uint8_t ord[19] = {16,17,18,0,8,7,9,6,10,5,11,4,12,3,13,2,14,1,15};
-			uint8_t l[320]; memset(l, 0, sizeof l); uint8_t cl[19]; memset(cl, 0, 19);
-			for (int i = 0; i < ncode; i++) cl[ord[i]] = (uint8_t) ri_bits(r, 3);
-			if (r->err) return -1;
-			rh_t ch; int e = rh_build(&ch, cl, 19);
-			if (e < 0) { r->err = RI_CLCODE; return -1; }
-			int idx = 0;
-			while (idx < nlen + ndist) {
-				int s = rh_dec(r, &ch); if (r->err) return -1;
-				if (s < 16) l[idx++] = (uint8_t) s;
-				else {
-					int rep, v = 0;
-					if (s == 16) { if (!idx) { r->err = RI_REPNOPREV; return -1; } v = l[idx - 1]; rep = 3 + (int) ri_bits(r, 2); }
-					else if (s == 17) rep = 3 + (int) ri_bits(r, 3);
-					else rep = 11 + (int) ri_bits(r, 7);
-					if (r->err) return -1;
-					if (idx + rep > nlen + ndist) { r->err = RI_REPOVERRUN; return -1; }
-					while (rep--) l[idx++] = (uint8_t) v;
-				}
-			}
-			if (!l[256]) { r->err = RI_NOEOB; return -1; }
+			uint8_t l[320]; int nlen, ndist;
+			if (ri_dyn_header(r, l, &nlen, &ndist)) return -1;
+			int e;
 			rh_t ll, dd; e = rh_build(&ll, l, nlen); if (e < 0) { r->err = RI_LLOVERSUB; return -1; }
 			e = rh_build(&dd, l + nlen, ndist); if (e < 0) { r->err = RI_DISTOVERSUB; return -1; }
 			int have_dist = dd.count[0] != ndist;
